@@ -223,23 +223,25 @@ def R4_partial_fill(run):
 def R5_target_clamp(run):
     run.title("R5", "get_next_sqrt_prices: the step target is max(limit, tick price) when a_to_b, min(limit, tick price) otherwise; the tick price is returned unchanged")
     facts = run.facts
-    fn = facts.need_fn("manager::swap_manager::get_next_sqrt_prices")
+    # (the private helper get_next_sqrt_prices is always analysed inlined into the swap loop: analysis/canon.py ALWAYS_INLINE)
+    fn = facts.need_fn(SWAPFN)
     run.touch(fn)
     for ab in (False, True):
-        pv = prov_of(fn, {"a_to_b": ab})
-        ret = None
-        for bi, bb in enumerate(fn.blocks):
-            if bb["t"]["k"] == "ret" and pv.flow.state_in[bi] is not None:
-                ret = pv.local(0, bi, len(bb["s"]))
-        ok = False
-        found = sh(ret) if ret else None
-        if ret and ret[0] == "tuple" and len(ret[1]) == 2:
-            tp, tgt = strip(ret[1][0]), strip(ret[1][1])
-            is_tp = lambda t: is_call(t, "sqrt_price_from_tick_index") and is_param(strip(t)[2][0], "next_tick_index")
-            if is_tp(tp) and tgt[0] == "call" and tgt[1].endswith("::max" if ab else "::min") and len(tgt[2]) == 2:
+        m = SL.SwapModel(facts, {"a_to_b": ab})
+        bnd = calls_to(fn, ends("get_bounded_sqrt_price_target"), ctx={"a_to_b": ab}, cut=True)
+        ok = len(bnd) == 1
+        found = None
+        if ok:
+            tgt = strip(bnd[0][2][1])
+            if tgt[0] == "var":
+                ds = [t for (_, _, t) in m.pv.var_defs(tgt[2])]
+                tgt = strip(ds[0]) if len(ds) == 1 else tgt
+            found = sh(tgt, 120)
+            is_tp = lambda t: is_call(t, "sqrt_price_from_tick_index")
+            ok = tgt[0] == "call" and tgt[1].endswith("::max" if ab else "::min") and len(tgt[2]) == 2
+            if ok:
                 x, y = tgt[2]
-                if (is_param(x, "sqrt_price_limit") and is_tp(y)) or (is_param(y, "sqrt_price_limit") and is_tp(x)):
-                    ok = True
+                ok = (m.is_var(x, "limit") and is_tp(y)) or (m.is_var(y, "limit") and is_tp(x))
         run.check("R5", "clamp[a_to_b=%d]" % ab, ok, "step target for a_to_b=%s is not %s(limit, tick price)" % (ab, "max" if ab else "min"), loc=fn.loc(),
                   found=found, detail="(tick_price, %s(limit, tick_price))" % ("max" if ab else "min"))
     # the loop uses them in that role
